@@ -85,6 +85,21 @@ Fixpoint collect (ak : act_kind) (gamma : Q) (sc : script) (st : cstate) (ps : l
               let '(st2, l) := collect ak gamma sc st1 r in (st2, s :: l)
   end.
 
+(* ---- a callback that returns False (stop request) ----
+   collect_rollouts returns False right after env.step and callback.on_step(): nothing is added to the rollout buffer and
+   _last_obs / _last_episode_starts are NOT advanced, while the environment has moved on; learn() ends there and a later
+   learn(reset_num_timesteps=False) continues from the stale observation.  Every oracle entry carries the stop flag. *)
+Definition step_col_stopped (sc : script) (st : cstate) : cstate :=
+  mkC (fst (vstep1 sc (cs_cur st))) (cs_obs st) (cs_start st).
+
+Fixpoint collect_s (ak : act_kind) (gamma : Q) (sc : script) (st : cstate) (ps : list (pol * bool)) : cstate * list slot :=
+  match ps with
+  | [] => (st, [])
+  | (p, false) :: r => let '(st1, s) := step_col ak gamma sc st p in
+                       let '(st2, l) := collect_s ak gamma sc st1 r in (st2, s :: l)
+  | (_, true) :: r => collect_s ak gamma sc (step_col_stopped sc st) r
+  end.
+
 (* one rollout: its slots, the observation whose value bootstraps the end of the rollout (new_obs after the
    last step) and the final dones handed to compute_returns_and_advantage *)
 Record rollout_out := mkR { ro_slots : list slot; ro_last_obs : Z; ro_dones : bool }.
@@ -165,3 +180,7 @@ Fixpoint map2 {A B C} (f : A -> B -> C) (a : list A) (b : list B) : list C :=
 Definition check_col (rel abs : Q) (ak : act_kind) (gamma : Q) (sc : script)
            (calls : list (bool * list (list pol))) (impl : list (list (list (Q * list Q)))) :=
   map2 (fun outs im => map2 (show_rollout rel abs) outs im) (snd (learns ak gamma sc cstate0 calls)) impl.
+
+(* stop-aware slots, for the correspondence: (obs, episode_start, forward id) of every slot written *)
+Definition show_collect_s (ak : act_kind) (gamma : Q) (sc : script) (ps : list (pol * bool)) : list (Z * bool * Z) :=
+  map (fun s => (s_obs s, s_start s, s_id s)) (snd (collect_s ak gamma sc (col_reset sc cstate0) ps)).
